@@ -69,7 +69,7 @@ class ScryptEngine:
         else:
             assert n <= 0xFFFFFFFFFFFFFFFF
             ig1 = operator.itemgetter(-16)
-            ig2 = operator.itemgetter(-17)
+            ig2 = operator.itemgetter(-15)
 
             def integerify(X):
                 return ig1(X) | (ig2(X) << 32)
